@@ -2,6 +2,7 @@ package mbapp
 
 import (
 	"context"
+	"io"
 	"sync"
 )
 
@@ -16,6 +17,7 @@ type ask struct {
 	respBuf []byte
 	n       int
 	errCode uint8
+	err     error
 }
 
 func (a *ask) await(ctx context.Context) error {
@@ -31,6 +33,9 @@ func (a *ask) await(ctx context.Context) error {
 func (a *ask) complete(resp []byte, errCode uint8) {
 	a.once.Do(func() {
 		a.errCode = errCode
+		if len(resp) > len(a.respBuf) {
+			a.err = io.ErrShortBuffer
+		}
 		a.n = copy(a.respBuf, resp)
 		close(a.done)
 	})
